@@ -457,6 +457,22 @@ func (iter *iterator) optimize() (Iterator, error) {
 		return iter, nil
 	}
 
+	// The simpler iterators below only know about one source of
+	// entries, so they are only correct when the iterator was built
+	// over a single source.  A cursor of another segment (or of the
+	// lower level) that was already consumed, e.g. while skipping a
+	// leading deletion, would otherwise be forgotten by a later
+	// SeekTo() that moves backwards.
+	numSources := iter.iteratorOptions.MaxSegmentHeight -
+		iter.iteratorOptions.MinSegmentLevel
+	if !iter.iteratorOptions.SkipLowerLevel &&
+		iter.ss.lowerLevelSnapshot != nil {
+		numSources++
+	}
+	if numSources != 1 {
+		return iter, nil
+	}
+
 	cur := iter.cursors[0]
 
 	if cur.ssIndex == -1 && cur.sc == nil {
